@@ -1684,6 +1684,9 @@ class Exec:
         if not new_axes:
             return elem()
         out = T(new_axes, elem, kind=b.kind, prov=("view:" + b.prov) if not adv else "fresh")
+        if b.ndim == 1 and len(plan) == 1 and plan[0][0] in ("off", "rev"):
+            out.view_src = (b, b.axes[0].size)
+            out.view_kind = plan[0]
         # a full 1-D view keeps identity
         if len(plan) == 1 and plan[0][0] == "keep" and b.ndim == 1:
             out.sym, out.items, out.facts = b.sym, b.items, dict(b.facts)
